@@ -1,6 +1,7 @@
 import Mkts.Model.Float
 import Mkts.Model.Time
 import Mkts.Model.ExceptDec
+import Mkts.Extracted.Skeletons
 /-!
 # CSV import (cmd/connect/loader/{utils,read,time,write}.go, the loop of cmd/connect/session/load.go)
 
@@ -16,10 +17,19 @@ Trusted and only *modelled* (cross-checked by the correspondence run, not proved
 * `strconv.ParseInt/ParseUint/ParseBool/ParseFloat` (decimal syntax incl. the `_` digit-separator rule, `inf`/`nan`; no hex floats),
   `time.ParseInLocation` for the one layout `20060102 15:04:05`, `time.Unix`, zones as transition tables.
 
-Modelled as code: `ReadMetadata` column matching, `CSVtoNumpyMulti` (chunk read loop: ANY reader error
-⇒ `endReached`), `convertCSVtoCSM` (time failure ⇒ `(nil, nil)` ⇒ nil dereference in the caller),
-`readTimeColumns` (the `formatAdj` "tuning" state machine, reset for every chunk), `parseTime`,
-`columnSeriesMapFromCSVData`, `NewNumpyDataset`'s type test, the loop of `load`.
+Modelled as code: `ReadMetadata` column matching, `CSVtoNumpyMulti` (chunk read loop),
+`convertCSVtoCSM`, `readTimeColumns` (the `formatAdj` "tuning" state machine, reset for every chunk),
+`parseTime`, `columnSeriesMapFromCSVData`, `NewNumpyDataset`'s type test, the loop of `load`.
+
+Four statements of the loader are READ OFF THE REGENERATED SKELETONS (`Mkts.Extracted.Skel.cmd_connect_loader_*`,
+section "variants" below), so that the model follows the source:
+* `readerErrorReported`: a csv.Reader error other than io.EOF is returned (else: taken for the end of the input);
+* `timeErrorReported`: `convertCSVtoCSM` returns an error when the time columns cannot be built (else: `(nil, nil)`
+  and the caller dereferences nil);
+* `timestampUsesDefaultZone`: `parseTime` converts a `timestamp` with the defaulted zone `tz` (else: `tzLoc`, nil
+  without a configured zone ⇒ `Time.In(nil)` panics);
+* `fixupBoundsChecked`: `parseTime` rejects a time field shorter than `formatFixupState` (else: slice panic).
+In the current source all four hold (pinned in Props/C33.lean).
 -/
 namespace Mkts.Csv
 open Mkts.Float
@@ -47,8 +57,40 @@ inductive TzCfg where
 deriving Repr
 
 inductive Status where
-  | ok | errNoMatch | errColumn | errUnsupported | panicNil | panicSlice | panicOther | fuel | unmodelled
+  | ok | errNoMatch | errColumn | errUnsupported | errReader | errTime
+  | panicNil | panicSlice | panicOther | fuel | unmodelled
 deriving DecidableEq, Repr
+
+def Status.isPanic : Status → Bool
+  | .panicNil | .panicSlice | .panicOther => true
+  | _ => false
+
+/-! ## variants: which statement the CURRENT source contains (regenerated skeletons) -/
+
+def hasSub : List String → List String → Bool
+  | [], pat => pat.isEmpty
+  | a :: l, pat => pat.isPrefixOf (a :: l) || hasSub l pat
+
+/-- `if <g> { <one call>; return }` occurs in the skeleton -/
+def guardReturns (g : String) : List String → Bool
+  | a :: b :: c :: d :: rest => (a == g && c == "return" && d == "}") || guardReturns g (b :: c :: d :: rest)
+  | _ => false
+
+open Mkts.Extracted.Skel in
+def readerErrorReported : Bool :=
+  hasSub cmd_connect_loader_CSVtoNumpyMulti
+    ["if:errors.Is(err2, stdio.EOF){", "break", "}", "if:err2 != nil{", "call:fmt.Errorf", "return", "}"]
+
+open Mkts.Extracted.Skel in
+def timeErrorReported : Bool :=
+  hasSub cmd_connect_loader_convertCSVtoCSM ["if:epochCol == nil{", "call:log.Error", "call:fmt.Errorf", "return", "}"]
+
+open Mkts.Extracted.Skel in
+def timestampUsesDefaultZone : Bool := cmd_connect_loader_parseTime.contains "call:time.Unix(sec, nsec).In(tz)"
+
+open Mkts.Extracted.Skel in
+def fixupBoundsChecked : Bool :=
+  guardReturns "if:formatFixupState < 0 || formatFixupState > len(dateTime){" cmd_connect_loader_parseTime
 
 structure Config where
   fmt : TimeFormat
@@ -271,7 +313,9 @@ def splitOnDot (s : Str) : List Str :=
 
 /-- loader.parseTime: `.error` = Go panic, `.ok none` = returned error, `.ok (some ns)` = instant -/
 def parseTime (cfg : Config) (dateTime : Str) (adj : Int) : Except Status (Option Int) :=
-  if adj > dateTime.length then .error .panicSlice          -- dateTime[:len(dateTime)-formatFixupState]
+  if adj < 0 || adj > dateTime.length then
+    -- dateTime[:len(dateTime)-formatFixupState] out of range: guarded, or a slice panic
+    (if fixupBoundsChecked then .ok none else .error .panicSlice)
   else
     let dateString := dateTime.take (dateTime.length - adj.toNat)
     match cfg.fmt with
@@ -291,7 +335,9 @@ def parseTime (cfg : Config) (dateTime : Str) (adj : Int) : Except Status (Optio
         | some nsec =>
           match cfg.tz with
           | .zone _ => .ok (some (sec * 1000000000 + nsec))
-          | _ => .error .panicOther                           -- Time.In(nil)
+          | _ =>
+            if timestampUsesDefaultZone then .ok (some (sec * 1000000000 + nsec))   -- In(tz), tz = UTC
+            else .error .panicOther                                                 -- In(tzLoc) = Time.In(nil)
     | .layout =>
       match parseLayout dateString with
       | none => .ok none
@@ -380,13 +426,20 @@ def read (n : Nat) : List Rec → ReadResult
     else if r.length != n then .err rest
     else .row r rest
 
-/-- the read loop of CSVtoNumpyMulti: up to `k` records; ANY error ends the input -/
-def readChunk (n : Nat) : Nat → List Rec → List Rec × Bool × List Rec
-  | 0, rs => ([], false, rs)
+/-- how the read loop of one chunk ended -/
+inductive ChunkEnd where
+  | more        -- `chunkSize` records read
+  | eof         -- io.EOF
+  | readerErr   -- any other csv.Reader error
+deriving DecidableEq, Repr
+
+/-- the read loop of CSVtoNumpyMulti: up to `k` records -/
+def readChunk (n : Nat) : Nat → List Rec → List Rec × ChunkEnd × List Rec
+  | 0, rs => ([], .more, rs)
   | k + 1, rs =>
     match read n rs with
-    | .eof => ([], true, [])
-    | .err rest => ([], true, rest)
+    | .eof => ([], .eof, [])
+    | .err rest => ([], .readerErr, rest)
     | .row r rest =>
       let (rows, e, rest') := readChunk n k rest
       (r :: rows, e, rest')
@@ -405,7 +458,9 @@ def assemble : List Int → List (List Int) → List Row
 def convertChunk (cfg : Config) (epochIdx : Nat) (idx : List Nat) (rows : List Rec) : Except Status (List Row) :=
   match readTimeColumns cfg epochIdx rows with
   | .error p => .error p
-  | .ok none => .error .panicNil                              -- csm == nil, err == nil ⇒ csm[tbk].Remove / NewNumpyDataset(nil)
+  | .ok none =>
+    -- convertCSVtoCSM: an error, or (nil, nil) ⇒ csm[tbk].Remove / NewNumpyDataset(nil) dereference nil
+    if timeErrorReported then .error .errTime else .error .panicNil
   | .ok (some ts) =>
     match parseColumns cfg.schema idx rows with
     | none => .error .errColumn
@@ -423,13 +478,17 @@ deriving DecidableEq, Repr
 def loadLoop (cfg : Config) (n epochIdx : Nat) (idx : List Nat) (k : Nat) : Nat → List Rec → LoadResult
   | 0, _ => ⟨.fuel, []⟩
   | fuel + 1, rs =>
-    let (rows, endReached, rest) := readChunk n k rs
+    let (rows, e, rest) := readChunk n k rs
+    -- a reader error is returned before anything of the chunk is converted …
+    if e == .readerErr && readerErrorReported then ⟨.errReader, []⟩
+    else
+    -- … or it is indistinguishable from the end of the input
     if rows.isEmpty then ⟨.ok, []⟩                             -- (nil, true, nil)
     else
       match convertChunk cfg epochIdx idx rows with
-      | .error e => ⟨e, []⟩
+      | .error st => ⟨st, []⟩
       | .ok out =>
-        if endReached then ⟨.ok, [out]⟩
+        if e != .more then ⟨.ok, [out]⟩                         -- endReached
         else
           let r := loadLoop cfg n epochIdx idx k fuel rest
           ⟨r.status, out :: r.chunks⟩
